@@ -51,7 +51,7 @@ def gen_case(rng, idx, tier):
         src = "enumerated"
     else:
         deep = tier == "thorough" and rng.random() < 0.3  # beyond the quick bounds: degree up to 6, up to 7 interior knots
-        cur = gen.curve(rng, big=(rng.random() < 0.05), pmax=6 if deep else 4, nintmax=7 if deep else 4)
+        cur = gen.curve(rng, big=(rng.random() < 0.05), pmax=6 if deep else 4, nintmax=7 if deep else 4, magnitudes=True)
         nt = gen.numtype(rng, cur["U"])
         if rng.random() < 0.15:
             U = gen.integer_kv(rng)
